@@ -12,17 +12,20 @@ import (
 )
 
 type zzvPMCEnv struct {
-	a, b      *PageMigrationController
-	src, dst  uint64   // symbolic page bases (multiples of the transfer unit)
-	nchunks   int
-	chunks    [][]byte // source page contents per 64-byte chunk
-	written   []bool   // destination chunk written
+	a, b                 *PageMigrationController
+	src, dst             uint64 // symbolic page bases (multiples of the transfer unit)
+	nchunks              int
+	chunks               [][]byte  // source page contents per 64-byte chunk
+	written              []bool    // destination chunk written
 	pendingAB, pendingBA []sim.Msg // network in flight
-	memAQ, memBQ []sim.Msg         // memory replies in flight
-	lifo      bool
-	nwrites   int
-	completions int
-	history   [][]bool // written flags of every request so far (completion k refers to request k)
+	memAQ, memBQ         []sim.Msg // memory replies in flight
+	lifo                 bool
+	nwrites              int
+	completions          int
+	history              [][]bool // written flags of every request so far (completion k refers to request k)
+	memLifo              bool     // memories answer in reverse order
+	stall                bool     // memories accept a request only every third round (back-pressure on the local memory ports)
+	tick                 int
 }
 
 func zzvNewPMC(name string) *PageMigrationController {
@@ -79,8 +82,11 @@ func (e *zzvPMCEnv) round(drainCtrl bool) {
 			e.pendingBA = append(e.pendingBA[:idx:idx], e.pendingBA[idx+1:]...)
 		}
 	}
+	e.tick++
+	accept := !e.stall || e.tick%3 == 0
 	// memory of GPU B: reads of the source page
-	if m := e.b.localMemPort.RetrieveOutgoing(); m != nil {
+	if !accept {
+	} else if m := e.b.localMemPort.RetrieveOutgoing(); m != nil {
 		r, ok := m.(*mem.ReadReq)
 		verif.Assert(ok, "the owning GPU's memory received something other than a read (source page must not be modified)")
 		if ok {
@@ -98,11 +104,18 @@ func (e *zzvPMCEnv) round(drainCtrl bool) {
 			e.memBQ = append(e.memBQ, mem.DataReadyRspBuilder{}.WithSrc("B.Mem").WithDst(e.b.localMemPort.AsRemote()).WithRspTo(r.ID).WithData(data).Build())
 		}
 	}
-	if len(e.memBQ) > 0 && e.b.localMemPort.Deliver(e.memBQ[0]) == nil {
-		e.memBQ = e.memBQ[1:]
+	if len(e.memBQ) > 0 {
+		idx := 0
+		if e.memLifo {
+			idx = len(e.memBQ) - 1
+		}
+		if e.b.localMemPort.Deliver(e.memBQ[idx]) == nil {
+			e.memBQ = append(e.memBQ[:idx:idx], e.memBQ[idx+1:]...)
+		}
 	}
 	// memory of GPU A: writes of the destination page
-	if m := e.a.localMemPort.RetrieveOutgoing(); m != nil {
+	if !accept {
+	} else if m := e.a.localMemPort.RetrieveOutgoing(); m != nil {
 		w, ok := m.(*mem.WriteReq)
 		verif.Assert(ok, "the destination GPU's memory received something other than a write")
 		if ok {
@@ -126,8 +139,14 @@ func (e *zzvPMCEnv) round(drainCtrl bool) {
 			e.memAQ = append(e.memAQ, mem.WriteDoneRspBuilder{}.WithSrc("A.Mem").WithDst(e.a.localMemPort.AsRemote()).WithRspTo(w.ID).Build())
 		}
 	}
-	if len(e.memAQ) > 0 && e.a.localMemPort.Deliver(e.memAQ[0]) == nil {
-		e.memAQ = e.memAQ[1:]
+	if len(e.memAQ) > 0 {
+		idx := 0
+		if e.memLifo {
+			idx = len(e.memAQ) - 1
+		}
+		if e.a.localMemPort.Deliver(e.memAQ[idx]) == nil {
+			e.memAQ = append(e.memAQ[:idx:idx], e.memAQ[idx+1:]...)
+		}
 	}
 	if drainCtrl {
 		e.drainCtrl()
@@ -163,6 +182,8 @@ func VerifPMC() {
 	e.nchunks = 2 + verif.Choice(2)
 	e.lifo = verif.Choice(2) == 1
 	lateCtrl := verif.Choice(2) == 1
+	e.memLifo = verif.Choice(2) == 1
+	e.stall = verif.Choice(2) == 1
 	nReq := verif.Param("migrations", 2)
 	total := 0
 	for r := 0; r < nReq; r++ {
@@ -178,7 +199,7 @@ func VerifPMC() {
 			WithReadFrom(e.src).WithWriteTo(e.dst).WithPageSize(uint64(64 * e.nchunks)).
 			WithPMCPortOfRemoteGPU(e.b.remotePort.AsRemote()).Build()
 		delivered := false
-		for i := 0; i < 14*e.nchunks+20; i++ {
+		for i := 0; i < 30*e.nchunks+20; i++ {
 			if !delivered && e.a.ctrlPort.Deliver(req) == nil {
 				delivered = true
 				total++
